@@ -1,4 +1,5 @@
-// Package mctime replaces the blocking functions of package time by virtual timers.
+// Package mctime replaces the blocking functions of package time by virtual timers
+// that fire only when a scenario fires them.
 package mctime
 
 import (
@@ -15,3 +16,70 @@ func Sleep(d time.Duration) {
 	t := mc.NewTimer("time.Sleep", d)
 	mc.Recv((<-chan time.Time)(t.C))
 }
+
+// Timer mirrors time.Timer on top of a virtual timer.
+type Timer struct {
+	C <-chan time.Time
+	t *mc.Timer
+	f func()
+}
+
+func NewTimer(d time.Duration) *Timer {
+	t := mc.NewTimer("time.NewTimer", d)
+	return &Timer{C: t.C, t: t}
+}
+
+func AfterFunc(d time.Duration, f func()) *Timer {
+	t := mc.NewTimer("time.AfterFunc", d)
+	tm := &Timer{t: t, f: f}
+	mc.Go(func() {
+		mc.Recv((<-chan time.Time)(t.C))
+		if !mc.Killing() && !tm.t.Stop {
+			f()
+		}
+	})
+	return tm
+}
+
+// Stop prevents the virtual timer from firing; reports whether it was still armed.
+func (t *Timer) Stop() bool {
+	mc.Yield("timer.Stop", t.t)
+	was := !t.t.Fired && !t.t.Stop
+	t.t.Stop = true
+	return was
+}
+
+// Reset re-arms the timer with a fresh virtual timer.
+func (t *Timer) Reset(d time.Duration) bool {
+	was := t.Stop()
+	n := mc.NewTimer("time.Reset", d)
+	t.t = n
+	if t.f == nil {
+		t.C = n.C
+	} else {
+		f := t.f
+		mc.Go(func() {
+			mc.Recv((<-chan time.Time)(n.C))
+			if !mc.Killing() && !n.Stop {
+				f()
+			}
+		})
+	}
+	return was
+}
+
+// Ticker mirrors time.Ticker; a virtual ticker ticks once each time its timer is fired.
+type Ticker struct {
+	C <-chan time.Time
+	t *mc.Timer
+}
+
+func NewTicker(d time.Duration) *Ticker {
+	t := mc.NewTimer("time.NewTicker", d)
+	return &Ticker{C: t.C, t: t}
+}
+
+func (t *Ticker) Stop()                 { t.t.Stop = true }
+func (t *Ticker) Reset(d time.Duration) {}
+
+func Tick(d time.Duration) <-chan time.Time { return NewTicker(d).C }
